@@ -12,18 +12,20 @@ ANCHOR_FILES = ["include/iora/network/http_server.hpp", "include/iora/core/threa
 COMPONENT = "httprespond"
 
 OBLIGATION_TABLE = """
-C16_O1_one_send|Iora.C16.O1_at_most_one_send|proved|every call of processHttpRequest, in every environment (stop() racing at any point, engine refusing the command), issues [] | [send] | [send, close] | [close]: never two sends, a close only last
+C16_O1_one_send|Iora.C16.O1_at_most_one_send|proved|the transport calls of one processHttpRequest, listed arm by arm along its control flow (processCalls), are [] | [sendAsync w] | [sendAsync w, close] for every server, seam behaviour, environment and request bytes (case analysis of the control flow, not a property of a result type); the engine commands are those calls minus a refused sendAsync, so at most one Send
+C16_O1_shape|Iora.HttpRespond.processCalls_shape|proved|the case analysis itself: every arm, guard and seam outcome of processCalls
+C16_O1_seam|Iora.C16.O1_seam_throw_500|proved|a subclass seam (onUpgradeRequest / onResponseSuppressed) that throws anything, std::exception or not, yields exactly one 500 + Connection: close + Close (FC16b repaired: the arm is catch (...); does not build on the unrepaired tree)
 C16_O1_up|Iora.C16.O1_exactly_one_response|proved|server up: every extracted request (any bytes) is answered by exactly one Send command, or suppressed — and suppressed only if the handler that ran set _suppressSend without throwing or the subclass seam returned true
 C16_O1_shutdown|Iora.C16.O1_shutdown|proved|shutdown at entry: 503 + Connection: close + Close while the transport exists, nothing otherwise
 C16_O1_overflow|Iora.C16.O1_overflow|proved|pool overflow (queue at capacity on arrival): exactly one 503 Send followed by Close, issued at once
-C16_O1_conn|Iora.C16.O1_all_schedules|proved|for every schedule, worker count and queue capacity: commands issued so far + commands still owed is a permutation of what the arrived requests were entitled to (nothing lost, nothing duplicated)
+C16_O1_conn|Iora.C16.O1_all_schedules|proved|for every schedule, worker count and queue capacity: commands issued so far + commands still owed is a permutation of the ledger, and the ledger is exactly one ticket per arrival in arrival order (ticketsOf replays the schedule): the overflow 503 precisely for arrivals that found the queue at capacity, processHttpRequest's commands otherwise
 C16_O1_quiescent|Iora.C16.O1_quiescent|proved|for every schedule: once all workers are idle the Send commands of a session are a permutation of the responses of its requests — one per request
 C16_O2|Iora.C16.O2_whole_responses|proved|for every schedule every Send command in the engine queue carries exactly one whole response of one arrived request of that session (responses never interleave; contiguity of one Send is C01)
 C16_O1_ticket|Iora.C16.O1_one_send_per_ticket|proved|every ticket (what one arrived request is entitled to, for any server, per-call environment and request bytes) contains at most one Send; the overflow ticket exactly one
 C16_O2_stream|Iora.C16.O2_stream_is_prefix_of_whole_responses|proved|for every kernel / event-loop behaviour the bytes a peer reads are a prefix of the concatenation, in engine-queue order, of the whole Send payloads before the first Close
 C16_O3_refuted|Iora.C16.O3_refuted|refuted|F28: with 2 workers the Send order is the completion order (witness: arrive r1, arrive r2, pick, pick, finish task 2, finish task 1)
 C16_O3_partial|Iora.C16.O3_partial_one_in_flight|partial|for every schedule in which a request of a session arrives only when no earlier one of that session is unfinished: each session's commands are exactly its requests' commands in arrival order, at every moment
-C16_O3_partial_w1|Iora.C16.O3_partial_single_worker|partial|one worker and a queue that is never full: the whole engine queue is the requests' commands in arrival order, at every moment
+C16_O3_partial_w1|Iora.C16.O3_partial_single_worker|partial|one worker and a queue that is never full: the whole engine queue is the requests' commands in arrival order, at every moment (a statement about the model's parameter w: HttpServer constructs its pool with 2..8 workers, so no shipped configuration satisfies w = 1; it shows that reordering needs a second worker)
 C16_O4_cl|Iora.C16.O4_content_length|proved|if the response object is API-consistent after the handler (Content-Length = dec |body|), the bytes sent are head ++ body with `Content-Length: |body|` among the fields (non-HEAD)
 C16_O4_api|Iora.C16.O4_api_script_consistent|proved|every handler written with status=/set_content/set_header (any number, any order, throwing or not) leaves the response API-consistent
 C16_O4_head|Iora.C16.O4_head_no_body|proved|a parsed HEAD request is answered without body bytes on every dispatch category, whatever the handler did; 204/304 also lose Content-Length
@@ -39,6 +41,7 @@ C16_O4p_prefix|Iora.C16.O4p_prefix_always|proved|for every event sequence the de
 C16_O5|Iora.C16.O5_framer_recovers|proved|the reference HTTP/1.1 framer applied to the concatenation of any list of wire-safe responses returns exactly their (status, field lines, body) list and nothing is left over
 C16_O5_process|Iora.C16.O5_process_wire_safe|proved|what processHttpRequest sends for a parsed request is wire-safe whenever the handler left token field names, no LF in values, no Transfer-Encoding, a status in 200..999 and an API-consistent body (or a 204/304, whose body and Content-Length are dropped under every method after the FC16a repair)
 C16_O5_e2e|Iora.C16.O5_end_to_end|proved|capstone: responses wire-safe + fitting the socket buffer + issued in order (optionally followed by Close) => for every kernel / event-loop behaviour the reference framer splits what the client reads into exactly those responses
+C16_O1_wire|Iora.C16.O1_wire_partial|partial|pool + engine + framer composed: under OneInFlight, no overflow, workers idle and FitsBuffer, if the commands of a session's requests are the Sends of wire-safe responses rs (+ at most one final Close), the bytes the client reads split into exactly rs, in request order, for every kernel / event-loop behaviour
 C16_gen_methods|Iora.C16.gen_methods|proved|Gen conformance: HttpMethod enumerators and parseMethod table agree with the model's Method type
 C16_gen_shape|Iora.C16.gen_connection_tokenised|proved|Gen conformance: the Connection decision found in the source is the tokenised one (F33 repaired) and the 204/304 reconciliation applies to every method (FC16a repaired)
 C16_gen_session|Iora.C16.gen_session_fields_never_written|proved|Gen conformance: SessionInfo::httpVersion / connectionKeepAlive are never assigned, so the session half of the decision is constant
@@ -53,19 +56,24 @@ for _l in OBLIGATION_TABLE.strip().splitlines():
     OBLIGATIONS.append(o)
 
 NOT_PROVED = [
-    "O3 at full strength is false (F28, refuted); proved under `OneInFlight` (non-pipelining client) and under `w = 1 ∧ queue never full`",
-    "O4′ at full strength is false (F31, refuted); proved under `FitsBuffer`",
+    "O3 at full strength is false (F28, refuted); proved under `OneInFlight` (non-pipelining client). `O3_partial_single_worker` (w = 1, queue never full) is about the "
+    "model's worker-count parameter only: HttpServer builds its pool with 2..8 workers (Gen.poolInitial = 2, poolMax = 8)",
+    "O4' at full strength is false (F31, refuted); proved under `FitsBuffer`",
     "the pool model (FIFO pop, w workers, one engine command per `_mutex` section) is tied by lockstep on gate-controlled schedules (handlers park at gates, "
-    "the op script chooses the completion order) and by the end-to-end acceptor; preemption INSIDE processHttpRequest between its two `_mutex` sections (Send, then Close) "
-    "is in the model (`emit` per command) but is not forced in the harness",
+    "the op script chooses the completion order; one or two requests per read) and by the end-to-end acceptor; preemption INSIDE processHttpRequest between its two "
+    "`_mutex` sections (Send, then Close) is in the model (`emit` per command) but is not forced in the harness; the pool model is of a running server "
+    "(the `_transport && !_shutdown` guard of sendErrorResponse on the overflow path is not in it; shutdown is covered per call by `Env`)",
     "O4_close speaks about the request's Connection value as parsed: repeated Connection field-lines are last-wins (addOrCombineHeader allow-list), "
     "so `Connection: close` followed by a second Connection line without `close` does not close (observation, not repaired: the allow-list is tested behaviour)",
-    "O5 assumes the handler put no CR/LF in field values, field names are tokens, status is 3 digits, and no body on 1xx/204/304 unless the request is HEAD "
-    "(a non-HEAD 204/304 keeps whatever body the handler attached: observation)",
+    "O5 assumes the handler put no LF in field values, field names are tokens, no Transfer-Encoding, and a status in 200..999",
+    "routing (splitPath / compilePattern / patternMatches / classifyRequest / getAllowedMethods) is in the model and tied by lockstep only: the translator has no "
+    "shape checks for it, and no C16 theorem depends on which category a request falls into (they hold for every Decision)",
+    "an exception escaping a HANDLER is caught by invokeWithSafetyNet (catch (...)); exceptions of the two subclass seams reach the function's own catch — modelled "
+    "(Seam.threw) since FC16b; a seam that blocks forever or a handler that never returns is outside the model",
 ]
 
 KEY_F28 = "pipelined-slow-then-fast"
-KEY_F31 = "connection-close-24MiB-slow-reader"
+KEY_F31 = "connection-close-24MiB-slow-reader"      # the key is the finding's name; the body is sized from the host's socket buffers (>= 24 MiB)
 WHAT_F28 = "pipelined requests are handled by different pool threads and answered in completion order (GET /slow then GET /fast on one connection: FAST response first)"
 WHAT_F31 = "Connection: close + a response larger than the socket buffer: the Close command discards the unsent tail of the write queue (body truncated)"
 
@@ -403,12 +411,13 @@ def gen_lockstep_cases(ctx, rng, n_cases):
             scripts.append(sc)
         hook_up = None
         if rng.chance(1, 6):
-            hook_up = rand_script(rng, allow_throw=False, allow_sup=False)
+            hook_up = rand_script(rng, allow_throw=True, allow_sup=False)          # a seam may throw, a std::exception or anything else
             ops.append("hook upgrade %s" % hook_up)
             scripts.append(hook_up)
-        hook_sup = rng.chance(1, 15)
-        if hook_sup:
-            ops.append("hook suppress 1")
+        hook_mode = rng.choice(["1", "1", "thr", "thx"]) if rng.chance(1, 10) else None
+        hook_sup = hook_mode == "1"
+        if hook_mode:
+            ops.append("hook suppress %s" % hook_mode)
         nreq_at = len(ops)
         reqs = []
         for _ in range(rng.range(2, 7)):
@@ -496,6 +505,40 @@ def gen_oracle_cases(ctx, rng, n_cases):
     return cases
 
 
+def gen_seam_cases(ctx, rng, n):
+    """A subclass seam throws (std::exception or not): exactly one 500 with Connection: close and a close."""
+    cases = []
+    want = (500, b"Internal Server Error", b"text/plain")
+    for _ in range(n):
+        ops = ["reset", "route GET %s %s" % (hexs(b"/a"), sc_content(b"alpha")), "route POST %s echo" % hexs(b"/p")]
+        reqs = []
+        which = rng.below(3)
+        thrower = rng.choice(["thr", "thx", sc_content(b"x") + ",thx", "st:101,thr"])
+        if which == 0:
+            ops.append("hook upgrade %s" % thrower)
+        else:
+            ops.append("hook suppress %s" % rng.choice(["thr", "thx"]))
+        first = len(ops)
+        for _ in range(rng.range(1, 4)):
+            if which == 0:
+                meth, path = rng.choice([(b"GET", b"/a"), (b"GET", b"/nope"), (b"POST", b"/p"), (b"HEAD", b"/a"), (b"OPTIONS", b"/a")])
+                d = build_request(rng, meth, path, upgrade=(rng.choice([b"Upgrade", b"upgrade"]), b"websocket"), conn=rng.choice([None, b"Upgrade", b"keep-alive"]),
+                                  body=b"xyz" if meth == b"POST" else b"")
+                w = want
+            else:
+                meth, path = rng.choice([(b"GET", b"/a"), (b"POST", b"/p"), (b"GET", b"/nope"), (b"HEAD", b"/a")])
+                d = build_request(rng, meth, path, body=b"xyz" if meth == b"POST" else b"")
+                # onResponseSuppressed is consulted only after a handler ran (MATCHED / default handler): /a by GET, /p by POST
+                ran = (meth, path) in ((b"GET", b"/a"), (b"POST", b"/p"))
+                w = want if ran else None
+            ops.append("req %s 010111 d" % hexs(d))
+            reqs.append({"method": meth.decode(), "wellformed": True, "want": w, "want_close": True if w else None, "env": "010111", "sess": "d",
+                         "upgrade": which == 0, "conn_last": None, "seam_throw": w is not None})
+        cases.append({"cat": "seam-throw", "ops": ops, "first_req": first, "reqs": reqs, "api_only": True, "may_suppress": False,
+                      "hook_upgrade": False, "scripts": []})
+    return cases
+
+
 def gen_dispatch_cases(ctx, rng, n):
     """The same decision through the real I/O-thread path: handleIncomingData -> tryEnqueue -> pool worker."""
     cases = []
@@ -559,6 +602,27 @@ def gen_pool_cases(ctx, rng, n):
                 gated_now = False
             else:
                 gated_now = gated
+            if gated_now and rng.chance(1, 4):
+                # two complete requests in ONE read (the extraction loop runs twice): the first parks at its gate, the second is anything
+                k += 1
+                kind2 = rng.below(4)
+                hdr2 = [(b"X-Gate", b"%d" % k)]
+                if kind2 < 2:
+                    d2 = build_request(rng, b"GET", b"/g?id=%04d&pad=%s" % (k, b"x" * k), extra=hdr2)
+                    g2, echo2 = True, True
+                elif kind2 == 2:
+                    d2 = build_request(rng, b"GET", b"/missing", extra=hdr2)
+                    g2, echo2 = False, False
+                else:
+                    d2 = build_request(rng, b"BREW", b"/g", extra=hdr2)
+                    g2, echo2 = False, False
+                ops.append("parr2 %d %s %s" % (sid, hexs(d), hexs(d2)))
+                arrivals.append((sid, k - 1, kind < 7))
+                arrivals.append((sid, k, echo2))
+                parked.append(k - 1)
+                if g2:
+                    parked.append(k)
+                continue
             ops.append("parr %d %s" % (sid, hexs(d)))
             arrivals.append((sid, k, kind < 7))
             if gated_now:
@@ -692,7 +756,7 @@ def monitor_case(c, impl):
                field(fields, b"Content-Type") != w[2]:
                 bad.append("O4: response differs from what the handler set: want status %d, %d body bytes, Content-Length %d, type %s; got %s" %
                            (w[0], body_len, want_len, w[2], l[:140]))
-            if o["close"] != r["want_close"]:
+            if r.get("want_close") is not None and o["close"] != r["want_close"]:
                 bad.append("O4: close after response = %s, the request's Connection value %r says %s" % (o["close"], r["conn_last"], r["want_close"]))
     return bad
 
@@ -788,20 +852,26 @@ def gen_e2e_scenarios(rng, n):
 
 
 def predict(ctx, scen_list):
-    """Ask the model what every request of every scenario is answered with (server up, default session)."""
+    """Ask the model what every request of every scenario is answered with (server up, default session): the whole wire."""
     ops = ["reset"] + ["route %s %s %s" % (m, hexs(p), s) for m, p, s in E2E_ROUTES]
     idx = []
     for s in scen_list:
         for c in s["conns"]:
             for r in c["reqs"]:
                 idx.append(r)
-                ops.append("req %s 010111 d" % hexs(r["data"]))
-    out, rc, err = ctx.run_lines(ctx.model_argv(COMPONENT), ops, timeout=600)
+                ops.append("reqw %s" % hexs(r["data"]))
+    out, rc, err = ctx.run_lines(ctx.model_argv(COMPONENT), ops, timeout=900)
     if rc != 0 or len(out) != len(ops):
         raise RuntimeError("model driver failed on e2e predictions rc=%s %s" % (rc, err[-300:]))
     for r, l in zip(idx, out[len(ops) - len(idx):]):
-        r["pred"] = parse_outcome(l)
-        r["pred_line"] = l
+        t = l.split()
+        if t and t[0] == "respond" and len(t) == 3:
+            w = unhex(t[2])
+            he = w.find(b"\r\n\r\n")
+            r["pred"] = {"kind": "respond", "close": t[1] == "1", "wire": w, "head": w[:he + 4], "bodylen": len(w) - he - 4}
+        else:
+            r["pred"] = {"kind": t[0] if t else "?"}
+        r["pred_line"] = l[:300]
 
 
 def conn_spec(c):
@@ -837,7 +907,7 @@ def conn_spec(c):
 
 
 def match_stream(obs, preds):
-    """Explain the observed byte stream as whole predicted responses (each used at most once)."""
+    """Explain the observed byte stream as whole predicted responses, each used at most once (exact bytes)."""
     pos = 0
     used = set()
     order = []
@@ -846,16 +916,18 @@ def match_stream(obs, preds):
         for i, p in enumerate(preds):
             if i in used or p["kind"] != "respond":
                 continue
-            h = p["head"]
-            if obs.startswith(h, pos) and len(obs) - pos - len(h) >= p["bodylen"] and fnv64(obs[pos + len(h):pos + len(h) + p["bodylen"]]) == p["fnv"]:
+            if obs.startswith(p["wire"], pos):
                 hit = i
                 break
         if hit is None:
             break
         used.add(hit)
         order.append(hit)
-        pos += len(preds[hit]["head"]) + preds[hit]["bodylen"]
+        pos += len(preds[hit]["wire"])
     return order, obs[pos:]
+
+
+FITS_FOR_SURE = 65536      # a connection whose predicted responses total at most this many bytes certainly fits the socket buffer
 
 
 def judge_conn(c, obs, eof, timed_out, f28_ok, counts):
@@ -872,7 +944,7 @@ def judge_conn(c, obs, eof, timed_out, f28_ok, counts):
     if not pipelined or in_order:
         # implementation-only monitors through the independent reference framer
         frames, rest, err = ref_frames(obs, heads)
-        if err and not (pipelined and not in_order):
+        if err:
             bad.append("O5: the byte stream is not a sequence of whole HTTP/1.1 responses (%s) after %d responses: %r" % (err, len(frames), rest[:60]))
         else:
             if len(frames) != k:
@@ -898,19 +970,36 @@ def judge_conn(c, obs, eof, timed_out, f28_ok, counts):
             bad.append("O4: connection closed = %s but the model says close-after-response = %s" % (eof, closes))
         counts["seq_conns"] = counts.get("seq_conns", 0) + 1
         return bad, []
-    # pipelined: hypothesis `OneInFlight` of the O3 partial theorem fails -> F28 carve-out (DESIGN 5.3)
     counts["pipelined_conns"] = counts.get("pipelined_conns", 0) + 1
     if in_order and eof == closes:
         counts["pipelined_in_order"] = counts.get("pipelined_in_order", 0) + 1
         return bad, []
+    # Pipelined and not in order: hypothesis `OneInFlight` of the O3 partial theorem fails -> F28 (DESIGN 5.3).  What is still REQUIRED is
+    # what holds for every schedule (O1_all_schedules, O2_stream_is_prefix_of_whole_responses, O4p_*): the stream is a sequence of whole,
+    # distinct responses of this connection's requests (any order); it may end in a proper prefix of one more such response only where a
+    # Close cut it (EOF, and the connection's responses do not certainly fit the socket buffer); EOF exactly if some response closes; the
+    # closing response is sent before its own Close, so it must be there whenever everything certainly fits; without a close every
+    # response must be there.
     hyp = ["F28"]
     counts["pipelined_out_of_order_or_lost"] = counts.get("pipelined_out_of_order_or_lost", 0) + 1
-    # what must hold for every schedule (O1/O2 all-schedules theorems): whole predicted responses, none twice
+    total = sum(len(p["wire"]) for p in preds if p["kind"] == "respond")
+    fits = total <= FITS_FOR_SURE
+    closing = [i for i, p in enumerate(preds) if p.get("close")]
     if leftover:
-        # a truncated tail is possible only if the connection was closed under it (a later request's close overtook this response)
-        if not (eof and closes):
-            bad.append("O2: %d bytes that are not a whole response of any request of this connection: %r" % (len(leftover), leftover[:60]))
-    if not closes:
+        unused = [p["wire"] for i, p in enumerate(preds) if i not in order and p["kind"] == "respond"]
+        cut = any(len(leftover) < len(w) and w.startswith(leftover) for w in unused)
+        if not cut:
+            bad.append("O2: %d bytes that are not a whole response of any request of this connection, nor the beginning of one: %r" % (len(leftover), leftover[:60]))
+        elif not (eof and closes):
+            bad.append("O2: the stream ends inside a response (%d bytes of it) although no Close cut it" % len(leftover))
+        elif fits:
+            bad.append("O4': a response was cut by a Close although all %d predicted bytes of this connection fit the socket buffer" % total)
+    if closes:
+        if not eof:
+            bad.append("O4: a response of this connection asks for close but the connection stayed open")
+        if fits and not all(i in order for i in closing):
+            bad.append("O1: the closing response itself is missing (responses seen: requests %s of %d; everything fits the socket buffer)" % (sorted(order), len(reqs)))
+    else:
         if sorted(order) != list(range(len(reqs))) and not timed_out:
             bad.append("O1: pipelined connection without any close: responses for requests %s only (of %d)" % (sorted(order), len(reqs)))
         if eof:
@@ -950,6 +1039,10 @@ def run_e2e(ctx, hb, rng, n_scen, f28_ok, counts):
                     continue
                 hx, eof, to = parts[ci].rsplit(":", 2)
                 if hx.startswith("big:"):
+                    # more than 8 MB on one connection: no scenario predicts that much
+                    reported += 1
+                    ctx.violation("property", "O2: a connection delivered %s bytes, more than every predicted response of its requests together" % hx.split(":")[1],
+                                  {"connection": conn_json(c), "observed_prefix_hex": hx.split(":")[2][:2000]}, found_input=True)
                     continue
                 obs = unhex(hx)
                 bad, hyp = judge_conn(c, obs, eof == "1", to == "1", f28_ok, counts)
@@ -990,7 +1083,7 @@ def reproduces(ctx, hb, setup, s, ci, f28_ok):
             return True
         hx, eof, to = parts[ci].rsplit(":", 2)
         if hx.startswith("big:"):
-            continue
+            return True
         bad, _ = judge_conn(s["conns"][ci], unhex(hx), eof == "1", to == "1", f28_ok, {})
         if bad:
             return True
@@ -1018,47 +1111,82 @@ def known_keys():
     return keys
 
 
+def socket_buffer_bound():
+    """max bytes the kernel can hold for one loopback connection: sender's send buffer + receiver's receive buffer (autotuning maxima)"""
+    tot = 0
+    for f in ("/proc/sys/net/ipv4/tcp_wmem", "/proc/sys/net/ipv4/tcp_rmem"):
+        try:
+            tot += int(open(f).read().split()[2])
+        except (OSError, ValueError, IndexError):
+            tot += 6 << 20
+    return tot
+
+
 def replay_findings(ctx, hb, keys):
-    """Returns (f28 carve-out allowed?, f31 listed and reproducing?)."""
-    ops = ["reset"] + ["route %s %s %s" % (m, hexs(p), s) for m, p, s in E2E_ROUTES] + ["route GET %s big:25165824:120" % hexs(b"/huge"), "e2e start"]
+    """Replays the witnesses of the recorded findings against the real server. Returns: F28 carve-out allowed?"""
+    bound = socket_buffer_bound()
+    try:
+        wmax = int(open("/proc/sys/net/ipv4/tcp_wmem").read().split()[2])
+    except (OSError, ValueError, IndexError):
+        wmax = 4 << 20
+    # body of the F31 witness: beyond what the socket buffers of this host can absorb (>= 24 MiB, >= 8 x the send-buffer maximum,
+    # >= 2 x send + receive maxima), but not more than the harness should allocate
+    huge = min(max(24 << 20, 8 * wmax, 2 * bound), 128 << 20)
+    if huge < bound + (16 << 20):
+        raise RuntimeError("socket buffers of this host (%d bytes) are too large to replay F31 with a body the harness can allocate" % bound)
     slow = b"GET /slow HTTP/1.1\r\nHost: a\r\n\r\n"
     fast = b"GET /fast HTTP/1.1\r\nHost: a\r\n\r\n"
-    # F28: both requests in one write; 2 responses of 4-byte bodies expected
-    ops.append("e2e run 3000 50 b%d;w%s" % (10 ** 9, hexs(slow + fast)))
-    ops.append("e2e run 3000 50 b%d;w%s" % (10 ** 9, hexs(slow + fast)))
-    # F31: 24 MiB body, Connection: close, the client does not read for 1.5 s
-    ops.append("e2e run 20000 50 w%s;s1500;b%d" % (hexs(b"GET /huge HTTP/1.1\r\nHost: a\r\nConnection: close\r\n\r\n"), 10 ** 9))
+    hreq = b"GET /huge HTTP/1.1\r\nHost: a\r\nConnection: close\r\n\r\n"
+    routes = ["route %s %s %s" % (m, hexs(p), s) for m, p, s in E2E_ROUTES]
+    # predictions: the two whole F28 responses; the head of the F31 response (the model is asked with a 7-byte body: the head differs in
+    # the Content-Length digits only, and a list of `huge` bytes is more than the model driver should build)
+    mout, mrc, merr = ctx.run_lines(ctx.model_argv(COMPONENT), ["reset"] + routes + ["route GET %s big:7:120" % hexs(b"/huge"),
+                                                                  "reqw %s" % hexs(slow), "reqw %s" % hexs(fast), "reqw %s" % hexs(hreq)], timeout=120)
+    w_slow, w_fast, w_huge7 = (unhex(l.split()[2]) for l in mout[-3:])
+    head_pred = w_huge7[:w_huge7.find(b"\r\n\r\n") + 4].replace(b"Content-Length: 7\r\n", b"Content-Length: %d\r\n" % huge)
+    ops = ["reset"] + routes + ["route GET %s big:%d:120" % (hexs(b"/huge"), huge), "e2e start"]
+    ops.append("e2e run 3000 50 b%d;w%s" % (len(w_slow) + len(w_fast), hexs(slow + fast)))
+    ops.append("e2e run 3000 50 b%d;w%s" % (len(w_slow) + len(w_fast), hexs(slow + fast)))
+    # F31: Connection: close, the client does not read for 1.5 s
+    ops.append("e2e run 30000 50 w%s;s1500;b%d;c" % (hexs(hreq), 10 ** 12))
     ops.append("e2e stop")
-    out, rc, err = ctx.run_lines([hb], ops, timeout=300)
+    out, rc, err = ctx.run_lines([hb], ops, timeout=600)
     base = len(ops) - 5
     res = {"F28": None, "F31": None}
+    other = []
     try:
         tries = []
         for l in out[base + 1:base + 3]:
-            hx = l.rsplit(":", 2)[0]
-            obs = unhex(hx)
-            tries.append((obs.find(b"FAST"), obs.find(b"SLOW")))
-        res["F28"] = any(a >= 0 and b >= 0 and a < b for a, b in tries)
-        l = out[base + 3]
-        hx, eof, to = l.rsplit(":", 2)
+            obs = unhex(l.rsplit(":", 2)[0])
+            tries.append("out-of-order" if obs == w_fast + w_slow else "in-order" if obs == w_slow + w_fast else "other")
+            if tries[-1] == "other":
+                other.append("F28 witness: the stream is neither of the two orders of the two predicted responses: %r" % obs[:300])
+        res["F28"] = "out-of-order" in tries
+        res["F28_detail"] = "the two whole predicted responses, per try: %s" % tries
+        hx, eof, to = out[base + 3].rsplit(":", 2)
         if hx.startswith("big:"):
             total = int(hx.split(":")[1])
-            head = unhex(hx.split(":")[2])
+            data = unhex(hx.split(":")[2])
         else:
-            head = unhex(hx)
-            total = len(head)
-        he = head.find(b"\r\n\r\n")
-        m = re.search(rb"Content-Length: (\d+)", head)
-        declared = int(m.group(1)) if m else -1
-        got = total - (he + 4) if he >= 0 else 0
-        res["F31"] = (eof == "1" and 0 <= got < declared)
-        res["F31_detail"] = "declared %d, received %d, eof=%s" % (declared, got, eof)
-        res["F28_detail"] = "positions (FAST, SLOW) per try: %s" % tries
-    except Exception as ex:      # malformed harness output: treated as machinery failure below
-        res["error"] = "%s: %s / %s" % (type(ex).__name__, ex, out[base:base + 5])
+            data = unhex(hx)
+            total = len(data)
+        got = total - len(head_pred)
+        head_ok = data[:len(head_pred)] == head_pred
+        body_ok = set(data[len(head_pred):]) <= {120}
+        res["F31_detail"] = "declared %d (socket buffers of this host hold at most %d), received %d body bytes, eof=%s, head as predicted=%s" % (huge, bound, got, eof, head_ok)
+        if not head_ok or not body_ok or got < 65536:
+            # O4p_partial / O4p_prefix: the head and the first 64 KiB certainly fit the socket buffer and must arrive, and only bytes of the response
+            other.append("F31 witness: %s — the part of a response that fits the socket buffer must be delivered intact before the Close" % res["F31_detail"])
+            res["F31"] = True
+        else:
+            res["F31"] = (eof == "1" and got < huge)
+    except Exception as ex:      # malformed harness output
+        res["error"] = "%s: %s / %s" % (type(ex).__name__, ex, [x[:80] for x in out[base:base + 5]])
     ctx.extra["finding_replay"] = {k: v for k, v in res.items()}
+    for o in other:
+        ctx.violation("property", "O4': " + o if o.startswith("F31") else "O2: " + o, {"witness": o, "ops": [x[:300] for x in ops]}, found_input=True)
     wit28 = {"routes": "GET /slow = sleep 300 ms + set_content(SLOW); GET /fast = set_content(FAST)", "one_write": (slow + fast).decode(), "observed": res.get("F28_detail")}
-    wit31 = {"route": "GET /huge = set_content(25165824 bytes)", "request": "GET /huge HTTP/1.1 + Connection: close; client starts reading after 1.5 s", "observed": res.get("F31_detail")}
+    wit31 = {"route": "GET /huge = set_content(%d bytes)" % huge, "request": "GET /huge HTTP/1.1 + Connection: close; client starts reading after 1.5 s", "observed": res.get("F31_detail")}
     for fid, key, what, wit, thm in (("F28", KEY_F28, WHAT_F28, wit28, "Iora.C16.O3_refuted"), ("F31", KEY_F31, WHAT_F31, wit31, "Iora.C16.O4p_refuted")):
         listed = key in keys
         still = res.get(fid)
@@ -1100,6 +1228,7 @@ def run(ctx: Ctx):
         cases = load_corpus()
         cases += gen_oracle_cases(ctx, rng.fork("oracle"), 500 * scale)
         cases += gen_lockstep_cases(ctx, rng.fork("lock"), 1400 * scale)
+        cases += gen_seam_cases(ctx, rng.fork("seam"), 60 * scale)
         cases += gen_dispatch_cases(ctx, rng.fork("disp"), 60 * scale)
         cases += gen_pool_cases(ctx, rng.fork("pool"), 150 * scale)
         res = ctx.lockstep(COMPONENT, hb, cases, timeout=900)
@@ -1155,7 +1284,7 @@ def run(ctx: Ctx):
     ctx.extra["not_proved"] = NOT_PROVED
     ctx.assumptions += ["one engine Send command is written contiguously and commands of a session are processed in enqueue order (C01)",
                         "every engine command of a worker is issued inside one `_mutex` critical section; the task queue is FIFO (ThreadPool::_tasks is a std::queue popped under its mutex)",
-                        "handlers are modelled as functions of (request, pre-filled response) that return or throw; hooks (onUpgradeRequest, onResponseSuppressed) do not throw",
+                        "handlers are modelled as functions of (request, pre-filled response) that return or throw; the subclass seams (onUpgradeRequest, onResponseSuppressed) return a value or throw (std::exception or any other type)",
                         "status codes are C++ `int`; the model uses unbounded integers",
                         "\"C\" locale for ::tolower / std::isalpha (the library never calls setlocale)"]
     return ctx.finish(level="proof", rule="a case = one op list (fresh routing table + scripted handlers + 2-7 requests through the real processHttpRequest behind a capturing engine), "
@@ -1271,5 +1400,7 @@ def load_corpus():
                 for r in (c["reqs"] or []):
                     if r.get("conn_last") is not None:
                         r["conn_last"] = r["conn_last"].encode("latin1")
+                    if r.get("want") is not None:
+                        r["want"] = tuple(x.encode("latin1") if isinstance(x, str) else x for x in r["want"])
                 out.append(c)
     return out
